@@ -370,3 +370,88 @@ Proof.
   - destruct (skip_nop_acc _ _ _ _ Sk) as [pc' [G A]]. eapply (prefix_loop_sound p Hok _ _ _ _ _ G H). apply A. exact Hw.
   - inversion H; subst. split; [exists w; reflexivity | discriminate].
 Qed.
+
+(* ------------------------------------------------------------------ the reported end of the match *)
+Lemma set_nth_length : forall A n (x : A) l, length (set_nth n x l) = length l.
+Proof. intros A n x l. revert n. induction l; intros n; destruct n; simpl; auto. Qed.
+
+Lemma nth_error_set_nth : forall A n (x : A) l, n < length l -> nth_error (set_nth n x l) n = Some x.
+Proof.
+  intros A n x l. revert n. induction l; intros n H; simpl in H; [lia|].
+  destruct n; simpl; auto. apply IHl. lia.
+Qed.
+
+Lemma bt_end : forall p t f seen pc pos c c', pos <= length t -> bt p t f seen pc pos c = Some c' ->
+  length c' = length c /\
+  exists e, pos <= e /\ e <= length t /\ accA p [] pc (slice t pos e) /\ (1 < length c -> nth_error c' 1 = Some (Some e)).
+Proof.
+  induction f; intros seen pc pos c c' Hp H; [discriminate|]. rewrite bt_S in H.
+  destruct (get p pc) as [i|] eqn:Hg; [|discriminate].
+  assert (Rune : is_rune (op i) = true ->
+          match nth_error t pos with
+          | Some b => if inst_matches i b then bt p t f [] (out i) (S pos) c else None
+          | None => None end = Some c' ->
+          length c' = length c /\
+          exists e, pos <= e /\ e <= length t /\ accA p [] pc (slice t pos e) /\ (1 < length c -> nth_error c' 1 = Some (Some e))).
+  { intros Hr H'. destruct (nth_error t pos) as [b|] eqn:Hn; [|discriminate].
+    destruct (inst_matches i b) eqn:Hm; [|discriminate].
+    pose proof (nth_error_lt _ _ _ Hn) as Hlt.
+    destruct (IHf _ _ _ _ _ Hlt H') as [L [e [A [B [C D]]]]].
+    split; auto. exists e. repeat split; try lia; auto. rewrite (slice_cons _ _ _ _ Hn) by lia. eapply A_rune; eauto. }
+  destruct (op i) eqn:Ho; try discriminate; try (apply Rune; [reflexivity | exact H]).
+  - destruct (mem pc seen); [discriminate|].
+    destruct (bt p t f (pc :: seen) (out i) pos c) eqn:E.
+    + inversion H; subst. destruct (IHf _ _ _ _ _ Hp E) as [L [e [A [B [C D]]]]]. split; auto. exists e. repeat split; auto.
+      eapply A_out; eauto. rewrite Ho. reflexivity.
+    + destruct (IHf _ _ _ _ _ Hp H) as [L [e [A [B [C D]]]]]. split; auto. exists e. repeat split; auto.
+      eapply A_arg; eauto. rewrite Ho. reflexivity.
+  - destruct (mem pc seen); [discriminate|].
+    destruct (bt p t f (pc :: seen) (out i) pos c) eqn:E.
+    + inversion H; subst. destruct (IHf _ _ _ _ _ Hp E) as [L [e [A [B [C D]]]]]. split; auto. exists e. repeat split; auto.
+      eapply A_out; eauto. rewrite Ho. reflexivity.
+    + destruct (IHf _ _ _ _ _ Hp H) as [L [e [A [B [C D]]]]]. split; auto. exists e. repeat split; auto.
+      eapply A_arg; eauto. rewrite Ho. reflexivity.
+  - destruct (IHf _ _ _ _ _ Hp H) as [L [e [A [B [C D]]]]].
+    assert (L2 : length (if arg i <? length c then set_nth (arg i) (Some pos) c else c) = length c)
+      by (destruct (arg i <? length c); auto; apply set_nth_length).
+    split; [rewrite L; exact L2|]. exists e. repeat split; auto.
+    + eapply A_eps; eauto. rewrite Ho. reflexivity.
+    + intros K. apply D. destruct (arg i <? length c); auto. rewrite set_nth_length. exact K.
+  - destruct (empty_ok (arg i) (before t pos) (nth_error t pos)); [|discriminate].
+    destruct (IHf _ _ _ _ _ Hp H) as [L [e [A [B [C D]]]]]. split; auto. exists e. repeat split; auto.
+    eapply A_eps; eauto. rewrite Ho. reflexivity.
+  - assert (Ec : c' = set_nth 1 (Some pos) c) by congruence. subst c'. clear H.
+    split; [apply set_nth_length|]. exists pos. repeat split; auto.
+    + rewrite slice_nil. eapply A_match; eauto.
+    + intros K. apply nth_error_set_nth. exact K.
+  - destruct (IHf _ _ _ _ _ Hp H) as [L [e [A [B [C D]]]]]. split; auto. exists e. repeat split; auto.
+    eapply A_eps; eauto. rewrite Ho. reflexivity.
+Qed.
+
+Lemma repeat_length' : forall A (x : A) n, length (repeat x n) = n.
+Proof. intros. apply repeat_length. Qed.
+
+Lemma match_at_end : forall F p ncap t i c, 2 <= ncap -> i <= length t -> match_at F p ncap t i = Some c ->
+  exists e, i <= e /\ e <= length t /\ accepts p (slice t i e) /\ nth_error c 1 = Some (Some e).
+Proof.
+  intros F p ncap t i c Hn Hi H. unfold match_at in H.
+  destruct (bt_end _ _ _ _ _ _ _ _ Hi H) as [L [e [A [B [C D]]]]].
+  exists e. repeat split; auto. apply D. rewrite set_nth_length, repeat_length. lia.
+Qed.
+
+Lemma search_end : forall F p ncap t c, 2 <= ncap -> search F p ncap t = Some c ->
+  exists j e, j <= e /\ e <= length t /\ accepts p (slice t j e) /\ nth_error c 1 = Some (Some e).
+Proof.
+  intros F p ncap t c Hn H. unfold search in H.
+  assert (G : forall n i, i + n <= S (length t) -> search_from F p ncap t n i = Some c ->
+              exists j e, j <= e /\ e <= length t /\ accepts p (slice t j e) /\ nth_error c 1 = Some (Some e)).
+  { induction n; intros i Hi Hs; simpl in Hs; [discriminate|].
+    destruct (match_at F p ncap t i) eqn:E.
+    - inversion Hs; subst. assert (Hil : i <= length t) by lia.
+      destruct (match_at_end _ _ _ _ _ _ Hn Hil E) as [e [A [B [C D]]]]. exists i, e. auto.
+    - apply (IHn (S i)); auto. lia. }
+  apply (G (S (length t)) 0); auto.
+Qed.
+
+Lemma nth_error_shift : forall k c n, nth_error (shift k c) n = option_map (option_map (fun x => k + x)) (nth_error c n).
+Proof. intros. unfold shift. apply nth_error_map. Qed.
